@@ -254,6 +254,23 @@ def run(ctx):
                 ctx.violation(dict(kind='damaged-input', source='synthetic %s battle' % v, where='pickled player record', corruption='a list and a dict that contain themselves', problem=bad, file=keep,
                                    wall_s=r['wall'], limit_s=25, how='python tools/c15_worker.py <file>  (ReplayParser(file, strict=False).get_info() in a fresh interpreter)'))
                 break
+        # own-player position packets whose two entity ids link entities IN A CIRCLE (avatar -> vehicle, vehicle -> avatar, avatar -> vehicle again,
+        # each to itself): four-byte changes in an intact recording; every packet is one small step
+        for v in [x for x in (wv[-1], '12_5_0', '0_10_0') if x in wv][:2]:
+            bb, vs = battle.build_wows(v, random.Random(9), join=True)
+            for e1, e2 in ((900, 500), (500, 900), (900, 500), (500, 500), (900, 900), (500, 501), (501, 900), (900, 501), (500, 0), (900, 500), (500, 900), (501, 500), (900, 500)):
+                bb.pkt('PlayerPosition', struct.pack('<ii', e1, e2) + struct.pack('<6f', 1.0, 2.0, 3.0, 0.1, 0.2, 0.3))
+            p = os.path.join(tmp, 'circle-%s.wowsreplay' % v); battle.write_replay(p, 'wowsreplay', {'clientVersionFromXml': vs}, bb.stream())
+            r = run_worker(p, 25)
+            ctx.case(('position-links-in-a-circle', v)); ctx.count('where:own-player-position-links-in-a-circle')
+            bad = None
+            if r['outcome'].startswith(('HANG', 'CRASH')) or r['outcome'] in ('exception MemoryError', 'exception RecursionError'): bad = r['outcome']
+            elif not r['outcome'].startswith('result'): bad = 'container intact but lenient mode raised: ' + r['outcome']
+            if bad:
+                keep = os.path.join(common.VERIF, 'evidence', 'replays', 'C15-damaged-%d.wowsreplay' % (len(ctx.violations) + 1)); shutil.copy(p, keep)
+                ctx.violation(dict(kind='damaged-input', source='synthetic %s battle' % v, where='the two entity ids of thirteen own-player position packets', corruption='avatar 900 and vehicles 500 / 501 named as each other\'s second entity in a circle and as their own',
+                                   problem=bad, file=keep, wall_s=r['wall'], limit_s=25, how='python tools/c15_worker.py <file>  (ReplayParser(file, strict=False).get_info() in a fresh interpreter)'))
+                break
         # a run of tiny slice packets whose bounds have ALL BITS SET, each one bit wider than the one before (what a list that doubled on every
         # packet would ask for): a bound past the end of the list is clamped (or the packet fails) - forty such packets stay forty small steps
         for v in [x for x in (wv[-1], '13_2_0', '12_6_0') if x in wv][:2]:
